@@ -169,6 +169,7 @@ def run_dispatch_case(case):
     with EnvGuard():
         TRUE_ENVIRON[BASE_KEY] = 'base'
         w = hollow_worker()
+        base_task_env = dict(w._task_env)    # the worker's environment before any request
 
         for idx, req in enumerate(reqs):
             mode = req['mode']
@@ -184,7 +185,7 @@ def run_dispatch_case(case):
             # what the statement promises the request to see: the worker's
             # environment as it was before any request, plus its own settings
             if sh:
-                start = dict(w._task_env)
+                start = dict(base_task_env)
             else:
                 start = dict(env0)
             start.update(req['env'])
